@@ -1144,6 +1144,11 @@ func (l *LineWrapper) wrapNextLine(config lineConfig) (done bool) {
 			l.scratch.markCandidateBest(candidateRun)
 			return true
 		case truncated:
+			// The candidateRun does not fit with the truncator: no truncation is needed
+			// if the whole end of the text fits on the line.
+			if !option.required && l.endOfTextFits(config) {
+				return true
+			}
 			// The candidateRun does not fit.
 			if !l.scratch.hasBest() {
 				// drop the whole runs appended while reaching this candidate:
@@ -1243,6 +1248,34 @@ func (l *LineWrapper) wrapNextLine(config lineConfig) (done bool) {
 		return false
 	}
 	return true
+}
+
+// endOfTextFits is called on the last line allowed by the truncation, for a break candidate
+// which fits on the line but leaves no room for the truncator. It tries the following
+// candidates against the whole width of the line: if the text fits up to its end, nothing
+// has to be truncated, the line is marked as the best one and true is returned.
+// The word candidates it consumes are not needed anymore: the line is the last one.
+func (l *LineWrapper) endOfTextFits(config lineConfig) bool {
+	if l.config.TextContinues {
+		return false
+	}
+	config.truncating = false
+	for {
+		option, ok := l.breaker.nextWordRaw()
+		if !ok || option.required {
+			return false
+		}
+		result, candidateRun := l.processBreakOption(option, config)
+		if result == breakInvalid {
+			continue
+		} else if result != fits {
+			return false
+		}
+		if option.breakAtRune == l.breaker.totalRunes-1 {
+			l.scratch.markCandidateBest(candidateRun)
+			return true
+		}
+	}
 }
 
 type processBreakResult uint8
